@@ -109,6 +109,9 @@ struct TestCase {
     exps: Vec<BTreeMap<String, St>>,
     spec_yaml: bool,
     dir_layout: bool,
+    /// --dir only: a second guard file whose stem continues the first one's with a character that
+    /// sorts before `.` (`x-logs.guard` beside `x.guard`), with a test file of its own
+    second: bool,
 }
 
 /// `default_name`: the name under which the test command knows the implicit rule of the file
@@ -174,6 +177,11 @@ fn check(c: &TestCase, evals: &mut u64) -> Result<Option<(usize, usize, usize)>,
     let rp = dir.join("x.guard");
     let tp = dir.join(format!("tests/x_tests.{}", if c.spec_yaml { "yaml" } else { "json" }));
     write_file(&rp, &c.rules);
+    let second = c.dir_layout && c.second;
+    if second {
+        write_file(&dir.join("x-logs.guard"), "rule other {\n  a exists\n}\n");
+        write_file(&dir.join("tests/x-logs_tests.yaml"), "- name: m\n  input: {a: 1}\n  expectations:\n    rules:\n      other: PASS\n");
+    }
     let default_name = if c.dir_layout { "x/default".to_string() } else { format!("{}/default", rp.to_string_lossy()) };
     write_file(&tp, &spec_text(c, &default_name));
     let mut totals = (0, 0, 0);
@@ -190,16 +198,31 @@ fn check(c: &TestCase, evals: &mut u64) -> Result<Option<(usize, usize, usize)>,
             return Err((format!("{}: exit {:?}, expected {} ; {}", what, r.code, want_code, r.brief()), format!("c16:exit-code:{}", fmt.flag())));
         }
         let got: Vec<CaseOut> = match fmt {
+            Fmt::Single if second => {
+                // the section of x.guard only
+                let txt = strip_ansi(&r.out);
+                let mut mine = String::new();
+                let mut on = false;
+                for line in txt.lines() {
+                    if line.starts_with("Testing Guard File") {
+                        on = line.trim_end().ends_with("/x.guard");
+                    } else if on {
+                        mine.push_str(line);
+                        mine.push('\n');
+                    }
+                }
+                parse_console(&mine)
+            }
             Fmt::Single => parse_console(&r.out),
             Fmt::Json | Fmt::Yaml => {
                 let j: J = if fmt == Fmt::Json { serde_json::from_str(&r.out).map_err(|e| (format!("{}: not JSON: {}", what, e), "c16:json".to_string()))? } else { serde_yaml::from_str(&r.out).map_err(|e| (format!("{}: not YAML: {}", what, e), "c16:yaml".to_string()))? };
-                let one = if c.dir_layout { j.as_array().and_then(|a| a.first().cloned()).unwrap_or(J::Null) } else { j };
+                let one = if c.dir_layout { j.as_array().and_then(|a| a.iter().find(|e| e["rule_file"].as_str().map_or(false, |f| f.ends_with("/x.guard"))).cloned()).unwrap_or(J::Null) } else { j };
                 parse_structured(&one).map_err(|e| (format!("{}: {}", what, e), "c16:structured".to_string()))?
             }
             _ => {
                 // JUnit: per (test case id, rule name) pass / failure marks
                 let ju = parse_junit(&r.out).map_err(|e| (format!("{}: {}", what, e), "c16:junit".to_string()))?;
-                let np: usize = wants.iter().map(|w| w.passed.len()).sum();
+                let np: usize = wants.iter().map(|w| w.passed.len()).sum::<usize>() + if second { 1 } else { 0 };
                 let nf: usize = wants.iter().map(|w| w.failed.len()).sum();
                 let gp = ju.cases.iter().filter(|c| c.1 == "pass").count();
                 let gf = ju.cases.iter().filter(|c| c.1 == "fail").count();
@@ -236,7 +259,7 @@ fn check(c: &TestCase, evals: &mut u64) -> Result<Option<(usize, usize, usize)>,
 }
 
 fn case_json(c: &TestCase) -> J {
-    json!({"rules": c.rules, "inputs": c.inputs, "spec_yaml": c.spec_yaml, "dir_layout": c.dir_layout,
+    json!({"rules": c.rules, "inputs": c.inputs, "spec_yaml": c.spec_yaml, "dir_layout": c.dir_layout, "second": c.second,
            "expectations": c.exps.iter().map(|e| e.iter().map(|(k, v)| (k.clone(), J::String(v.text().to_string()))).collect::<serde_json::Map<String, J>>()).collect::<Vec<_>>()})
 }
 
@@ -250,6 +273,7 @@ pub fn replay(case: &J) -> CaseResult {
             .unwrap_or_default(),
         spec_yaml: case["spec_yaml"].as_bool().unwrap_or(false),
         dir_layout: case["dir_layout"].as_bool().unwrap_or(false),
+        second: case["second"].as_bool().unwrap_or(false),
     };
     let mut ev = 0;
     match check(&c, &mut ev) {
@@ -302,7 +326,7 @@ fn random_case(u: &mut Choices, sz: Size) -> CaseResult {
         }
         exps.push(e);
     }
-    let c = TestCase { rules, inputs, exps, spec_yaml: u.chance(1, 2), dir_layout: u.chance(1, 3) };
+    let c = TestCase { rules, inputs, exps, spec_yaml: u.chance(1, 2), dir_layout: u.chance(1, 3), second: u.chance(1, 2) };
     let mut evals = 0;
     match check(&c, &mut evals) {
         Ok(None) => CaseResult::Discard("evaluation-error"),
